@@ -9,6 +9,7 @@ import (
 	"google.golang.org/grpc/peer"
 	"google.golang.org/grpc/status"
 	"runtime"
+	"strings"
 	"sync"
 	"sync/atomic"
 	"testing"
@@ -37,6 +38,11 @@ type c20Case struct {
 	CallOpts int `json:",omitempty"`
 	// FinishErr: c2s with ending peer-finish: the handler finishes with trailers and a non-nil status
 	FinishErr bool `json:",omitempty"`
+	// HdrCalls: with UseHdr, how many times in a row the client calls Header() (a logging wrapper plus the
+	// application); only a first call without a pending header frame may take a message
+	HdrCalls int `json:",omitempty"`
+	// RecvBlocked: c2s on bidi: another goroutine of the client sits in RecvMsg the whole time (full duplex)
+	RecvBlocked bool `json:",omitempty"`
 }
 
 type c20Obs struct {
@@ -98,6 +104,17 @@ func propC20(c c20Case) *Outcome {
 	hStarted := make(chan struct{})    // c2s: the handler has done its preliminary send
 	var hctxDone atomic.Bool
 
+	sendErrsSnapshot := func() []string {
+		mu.Lock()
+		defer mu.Unlock()
+		var es []string
+		for _, e := range sendErrs {
+			if e != "" {
+				es = append(es, e)
+			}
+		}
+		return es
+	}
 	sendLoop := func(send func(*pb.Message) error) {
 		defer close(senderExited)
 		senderGID.Store(int64(curGID()))
@@ -193,6 +210,7 @@ func propC20(c c20Case) *Outcome {
 		clientRecvCost = 2 // the receive of a single-response method probes for a second frame
 	}
 	didRecv := false
+	handlerRecvs := 0
 	firstConsume := true
 	doRecv := func() {
 		if c.Dir == "c2s" {
@@ -202,6 +220,7 @@ func propC20(c c20Case) *Outcome {
 			case recvToken <- reply:
 				select {
 				case <-reply:
+					handlerRecvs++
 				case <-time.After(stallBound):
 					obs.Fault = "handler RecvMsg did not return although the client has sent a message"
 				}
@@ -215,8 +234,10 @@ func propC20(c c20Case) *Outcome {
 			if !c.Header {
 				takers++ // no header frame is coming: Header() may take (and park) a data frame
 			}
-			if s := guardFor(stallBound, "Header()", func() { cs.Header() }); s != "" {
-				obs.Fault = s
+			for k := 0; k < 1+c.HdrCalls && obs.Fault == ""; k++ {
+				if s := guardFor(stallBound, "Header()", func() { cs.Header() }); s != "" {
+					obs.Fault = s
+				}
 			}
 			return
 		}
@@ -235,6 +256,16 @@ func propC20(c c20Case) *Outcome {
 				return o.failf("handler did not start")
 			}
 		}
+		if c.RecvBlocked && c.Kind == kBidi {
+			o.class("client-goroutine-blocked-in-RecvMsg")
+			go func() {
+				for cs.RecvMsg(new(pb.Message)) == nil {
+				}
+			}()
+			for i := 0; i < 5; i++ {
+				runtime.Gosched()
+			}
+		}
 		go sendLoop(func(m *pb.Message) error { return cs.SendMsg(m) })
 	} else if !clientStreaming(c.Kind) {
 		cs.SendMsg(&pb.Message{})
@@ -244,6 +275,18 @@ func propC20(c c20Case) *Outcome {
 		sd := sendsDone.Load()
 		tk := takers
 		obs.Points = append(obs.Points, fmt.Sprintf("%s: sendsDone=%d takers=%d", label, sd, tk))
+		// the other direction of the same rule: a send blocks only while the one-message buffer is full, so
+		// with r messages taken by the handler and the sender at rest, min(N, r+1) sends have completed
+		if c.Dir == "c2s" && strings.HasPrefix(label, "quiescent") {
+			want := handlerRecvs + 1
+			if want > c.N {
+				want = c.N
+			}
+			if int(sd) < want && len(sendErrsSnapshot()) == 0 {
+				obs.Fault = fmt.Sprintf("%s: the handler has received %d messages and the sender is at rest after only %d completed sends of %d: a send is blocked although the buffer has room", label, handlerRecvs, sd, c.N)
+				return false
+			}
+		}
 		if int(sd) > tk+1 {
 			obs.Fault = fmt.Sprintf("%s: %d sends have completed but the receiver has started only %d frame-consuming calls: the sender is %d messages ahead (allowed: 1 buffered message)", label, sd, tk, int(sd)-tk)
 			return false
@@ -339,6 +382,10 @@ func genC20(t *rapid.T) c20Case {
 	}
 	c.Ending = rapid.SampledFrom([]string{"peer-finish", "cancel"}).Draw(t, "ending")
 	c.FinishErr = rapid.Bool().Draw(t, "finisherr")
+	if c.UseHdr {
+		c.HdrCalls = rapid.SampledFrom([]int{0, 0, 1, 2}).Draw(t, "hdrcalls")
+	}
+	c.RecvBlocked = c.Dir == "c2s" && c.Kind == kBidi && rapid.IntRange(0, 2).Draw(t, "recvblocked") == 0
 	c.CallOpts = rapid.SampledFrom([]int{0, 0, 0, 1, 1, 2, 3, 4, 7}).Draw(t, "callopts")
 	if c.Dir == "c2s" && c.Kind == kBidi {
 		c.Pending = rapid.SampledFrom([]string{"", "", "header", "message"}).Draw(t, "pending")
@@ -363,7 +410,7 @@ func init() { registerReplay("C20", propC20) }
 
 const c20Rule = "rapid-generated: stream kind x direction (client->handler, handler->client) x 1..64 attempted sends x payload size (0..100 KB; fixed cases 40 x 256 KiB, thorough 48 x 1 MiB) x pending header frame or not x first consuming call Header() or RecvMsg x receiver schedule (per quiescent point 0..3 receives) x ending (peer finishes / context cancelled); " +
 	"oracle: at every observation sendsDone <= takers + 1, where takers counts frame-consuming calls before they start (2 per client RecvMsg of a single-response method); with the receiver idle and the sender parked (runtime.Stack state) that means <= 1 completed send however many were attempted; live heap of the stalled stream <= 6 x size + 4 MiB after GC; the parked sender returns within 20 s of the ending event; " +
-	"also generated since the seeded rounds: an unread header/message in the other direction, Header() with and without a pending header frame, request flooding of a server-streaming method through a raw bidi descriptor, grpc.Header/Trailer/Peer call options in every combination, handlers finishing with trailers and an error while the client's sender is parked; " +
+	"also generated since the seeded rounds: an unread header/message in the other direction, Header() with and without a pending header frame, request flooding of a server-streaming method through a raw bidi descriptor, grpc.Header/Trailer/Peer call options in every combination, handlers finishing with trailers and an error while the client's sender is parked, Header() called several times in a row, a client goroutine blocked in RecvMsg while another sends (lower bound: with r messages taken and the sender at rest, min(N, r+1) sends have completed); " +
 	"non-trivial = >= 3 attempted sends and the receiver idle at least once while sends remained; distinct by case hash"
 
 func TestC20(t *testing.T) {
